@@ -101,6 +101,11 @@ def build(spec):
     mp = call["model_parameters"]
     if est != "bootstrap" and not call["features"]:
         call["features"] = ["x1"]
+    # robust conformal correction together with a partial count far above the victim's own interval: whatever the
+    # victim's count does to its own bounds, the (shared) correction of the other units must not move
+    force_big = est == "nonparametric" and kind == "nonreporting" and (i // 15) % 2 == 0
+    if force_big:
+        mp["robust"] = True
     outl = bool(rng.random() < 0.6)
     mp["fit_turnout_outlier_model"] = outl
     mp["fit_margin_outlier_model"] = outl
@@ -131,7 +136,7 @@ def build(spec):
         j = feed2.index[feed2.geographic_unit_fips == victim][0]
         t, d, g = [float(feed2.loc[j, c]) for c in ("results_turnout", "results_dem", "results_gop")]
         f1, f2, f3 = rng.uniform(0.3, 2.5), rng.uniform(0.3, 2.5), rng.uniform(0.3, 2.5)
-        if rng.random() < 0.4:  # a partial count far above anything the model predicts (binding floors in its groups)
+        if (rng.random() < 0.4) or force_big:  # a partial count far above anything the model predicts (binding floors in its groups)
             big = float(rng.uniform(8, 30))
             f1, f2, f3 = f1 * big, f2 * big, f3 * big
             base_t = float(el.pre.set_index("geographic_unit_fips").baseline_turnout.get(victim, 100) or 100)
